@@ -55,7 +55,13 @@ type OptObs struct {
 func modFns(g *getoptions.GetOpt, o *OptSpec, b *Built) []getoptions.ModifyFn {
 	var fns []getoptions.ModifyFn
 	if len(o.Aliases) > 0 {
-		fns = append(fns, g.Alias(o.Aliases...))
+		if o.AliasSplit {
+			for _, a := range o.Aliases {
+				fns = append(fns, g.Alias(a))
+			}
+		} else {
+			fns = append(fns, g.Alias(o.Aliases...))
+		}
 	}
 	if o.Desc != "" {
 		fns = append(fns, g.Description(o.Desc))
